@@ -96,6 +96,8 @@ pub struct ExecResult {
     /// log of (sender thread id, channel id) for every message sent, in global order
     pub send_log: Vec<(usize, usize)>,
     pub max_chan_len: HashMap<usize, usize>,
+    /// names of the managed threads that had not finished when thread 0 (the program's main thread) ended
+    pub alive_at_main_exit: Vec<String>,
 }
 
 pub(crate) struct ThreadRec {
@@ -117,6 +119,7 @@ pub(crate) struct Inner {
     pub send_log: Vec<(usize, usize)>,
     pub max_chan_len: HashMap<usize, usize>,
     pub os_handles: Vec<std::thread::JoinHandle<()>>,
+    pub alive_at_main_exit: Vec<String>,
 }
 
 pub(crate) struct Sched {
@@ -407,6 +410,11 @@ fn thread_body<T>(s: &Arc<Sched>, tid: usize, f: impl FnOnce() -> T, slot: &Arc<
     let _ = catch_unwind(AssertUnwindSafe(|| point(Op::Exit)));
     let mut g = s.inner.lock().unwrap_or_else(|e| e.into_inner());
     g.threads[tid].status = ThreadStatus::Done;
+    if tid == 0 && g.aborted.is_none() {
+        // the program's main thread ends here: in a real process every thread still running is cut off at this moment
+        let alive: Vec<String> = g.threads.iter().filter(|t| t.status != ThreadStatus::Done).map(|t| t.name.clone()).collect();
+        g.alive_at_main_exit = alive;
+    }
     if g.aborted.is_none() {
         let _ = g.decide(tid);
     }
@@ -444,6 +452,7 @@ pub fn run_execution(policy: Policy, body: impl FnOnce() + Send + 'static) -> Ex
             send_log: Vec::new(),
             max_chan_len: HashMap::new(),
             os_handles: Vec::new(),
+            alive_at_main_exit: Vec::new(),
         }),
         cv: Condvar::new(),
     });
@@ -491,5 +500,6 @@ pub fn run_execution(policy: Policy, body: impl FnOnce() + Send + 'static) -> Ex
         thread_names: g.threads.iter().map(|t| t.name.clone()).collect(),
         send_log: g.send_log.clone(),
         max_chan_len: g.max_chan_len.clone(),
+        alive_at_main_exit: g.alive_at_main_exit.clone(),
     }
 }
